@@ -13,7 +13,8 @@ pub fn runs(property: &str, tier: Tier) -> u64 {
     }
     let (quick, thorough) = match property {
         "C01" | "C02" | "C03" | "C04" | "C05" | "C06" | "C08" | "C09"
-        | "C10" | "C39" => (480, 12000),
+        | "C10" | "C39" | "C31" => (480, 12000),
+        "C38" => (800, 20000),
         "C07" => (320, 6000),
         "C12" | "C13" | "C14" | "C33" => (4000, 200000),
         "C15" | "C16" | "C17" | "C36" => (4000, 200000),
@@ -106,6 +107,24 @@ pub fn enga_profile(property: &str, tier: Tier) -> Option<Profile> {
             p.gen.max_tals = 3;
             p.gen.max_cas = 6;
         }
+        "C31" => {
+            only(&mut p, &[
+                (AddObj, 8), (Touch, 4), (AddChild, 8), (RsyncFail, 2),
+                (RrdpFail, 2),
+            ]);
+            p.gen.dubious_pct = 35;
+            p.gen.shared_repos = false;
+            p.allow_dubious_pct = 35;
+            p.big_jumps = false;
+            p.steps = 3;
+        }
+        "C38" => {
+            only(&mut p, &[(AddObj, 8), (Touch, 2), (AddChild, 4)]);
+            p.steps = 1;
+            p.size_limits = true;
+            p.gen.rrdp_pct = 70;
+            p.focus = Some("C38");
+        }
         _ => return None
     }
     Some(p)
@@ -139,6 +158,16 @@ pub fn describe(property: &str) -> Option<serde_json::Value> {
             "C10" => "payload under a TAL iff a matching valid TA certificate \
                       (fresh or stored) exists; stored TA never replaced by \
                       undecodable bytes",
+            "C31" => "transport log invariant: with allow-dubious-hosts off \
+                      no fake-rsync invocation and no simulated HTTPS request \
+                      targets localhost, an IP literal or an explicit port \
+                      (names compared case-insensitively); with it on they \
+                      do happen (probe)",
+            "C38" => "object size limit drawn around the real sizes of the \
+                      TA certificates and largest RRDP objects (L-1, L, L+1, \
+                      disabled, default), responses with and without \
+                      Content-Length and with small chunks: payload equals \
+                      the model (object used iff size <= L or limit disabled)",
             "C39" => "snapshot refresh time is not later than the earliest \
                       expiry on the chain of any contributing object",
             _ => "payload equals the reference model",
